@@ -274,6 +274,34 @@ def unary_task(t):
     return {"st": st, "viols": viols, "outcomes": 0}
 
 
+def readback_children(ctx):
+    """val() of fixed-point numbers on the REAL nobackend (placeholder modulus 10000) and snarkjs modules, fresh
+    interpreters: the number read back is the represented one."""
+    import json as _json
+    import os as _os
+    import subprocess as _sp
+    child = _os.path.join(common.VERIF, "pv", "children", "minimal_child.py")
+    for backend in ("nobackend", "snarkjs"):
+        d = __import__("tempfile").mkdtemp(prefix="pv-c14-")
+        try:
+            r = _sp.run([common.PY, child, _json.dumps({"scenario": "real-backend-fxp-readback", "tree": common.TREE, "backend": backend})],
+                        capture_output=True, text=True, cwd=d, env=dict(_os.environ, PYTHONHASHSEED="0"), start_new_session=True, timeout=120)
+        finally:
+            __import__("shutil").rmtree(d, True)
+        rep = None
+        for ln in r.stdout.splitlines():
+            if ln.startswith("@@"):
+                rep = _json.loads(ln[2:])
+        if rep is None or rep.get("backend_name") != backend:
+            ctx.harness_errors.append("fixed-point read-back child (%s) failed: %s" % (backend, r.stderr[-300:]))
+            continue
+        ctx.add("readback_values", len(rep["rows"]))
+        for row in rep["rows"]:
+            if "error" in row or row["val"] != row["v"]:
+                ctx.violation({"klass": "wrong-value", "op": "val", "backend": backend, "how": row["how"]}, {"readback": backend},
+                              "[real backend %s] %s fixed-point %r reads back as %s" % (backend, row["how"], row["v"], row.get("val", row.get("error"))))
+
+
 def _init():
     H.bind(REC.BN128)
     warnings.simplefilter("ignore")
@@ -320,6 +348,7 @@ def run(ctx):
         nout += r_["outcomes"]
         for v in r_["viols"].values():
             ctx.violations.append({"sig": v["sig"], "case": v["case"], "what": v["what"] + " (x%d)" % v["count"]})
+    readback_children(ctx)
     from .. import e1
     e1.dedupe_violations(ctx)
     ctx.cov.update(agg)
@@ -337,7 +366,22 @@ def run(ctx):
     ctx.sample({"op": "lt", "kinds": "SF", "a": 1, "b": "5/4", "resolution": 2, "expected": 1})
 
 
+class _Ctx:
+    def __init__(self):
+        self.cov, self.harness_errors, self.viols = {}, [], []
+
+    def violation(self, sig, case, what):
+        self.viols.append({"sig": sig, "what": what})
+
+    def add(self, k, n=1):
+        self.cov[k] = self.cov.get(k, 0) + n
+
+
 def replay(case):
+    if "readback" in case:
+        c = _Ctx()
+        readback_children(c)
+        return {"scenario": "fixed-point read-back on real backends", "violations": c.viols, "harness_errors": c.harness_errors}
     H.bind(case["p"])
     warnings.simplefilter("ignore")
     if case.get("unary"):
